@@ -104,3 +104,56 @@ package eds
 //@   ensures err == nil ==> len(result0) == odsSize * odsSize
 //@   loop 1: invariant len(shares) == odsSize * odsSize
 //@   loop 2: invariant len(shares) == odsSize * odsSize
+
+// ---------------------------------------------------------------------------------------------
+// C05: the in-memory accessor over an rsmt2d square. The square's rows and columns (library, assumed)
+// are abstract byte matrices that agree cell by cell: row r at c is column c at r. cellOf(e, r, c) is
+// the share at (r, c).
+//@ pure func edsRowBytes(e *rsmt2d.ExtendedDataSquare, r uint) [][]byte
+//@ pure func edsColBytes(e *rsmt2d.ExtendedDataSquare, c uint) [][]byte
+//@ pure func edsWidth(e *rsmt2d.ExtendedDataSquare) uint
+//@ pure func shareOfBytes(b []byte) libshare.Share
+//@ pure func cellShare(e *rsmt2d.ExtendedDataSquare, r int, c int) libshare.Share = shareOfBytes(edsRowBytes(e, uint(r))[c])
+//@ extern (*github.com/celestiaorg/rsmt2d.ExtendedDataSquare).Row
+//@   params eds x
+//@   ensures result == edsRowBytes(eds, x) && len(result) == edsWidth(eds)
+//@ extern (*github.com/celestiaorg/rsmt2d.ExtendedDataSquare).Col
+//@   params eds y
+//@   ensures result == edsColBytes(eds, y) && len(result) == edsWidth(eds)
+//@   ensures forall r int :: 0 <= r && r < len(result) ==> shareOfBytes(result[r]) == shareOfBytes(edsRowBytes(eds, uint(r))[y])
+//@ extern (*github.com/celestiaorg/rsmt2d.ExtendedDataSquare).Width
+//@   params eds
+//@   ensures result == edsWidth(eds)
+//@ extern github.com/celestiaorg/go-square/v4/share.FromBytes
+//@   ensures err == nil ==> len(result0) == len(bytes) && (forall i int :: 0 <= i && i < len(bytes) ==> result0[i] == shareOfBytes(bytes[i]))
+
+//@ func relativeIndexes
+//@   property C05
+//@   requires axisType == 0 || axisType == 1
+//@   ensures axisType == 0 ==> axisIdx == rowIdx && shrIdx == colIdx
+//@   ensures axisType == 1 ==> axisIdx == colIdx && shrIdx == rowIdx
+
+//@ func getAxis
+//@   property C05
+//@   requires eds != nil && axisIdx >= 0 && (axisType == 0 || axisType == 1)
+//@   ensures err == nil ==> len(result0) == edsWidth(eds)
+//@   ensures err == nil && axisType == 0 ==> forall i int :: 0 <= i && i < len(result0) ==> result0[i] == cellShare(eds, axisIdx, i)
+//@   ensures err == nil && axisType == 1 ==> forall i int :: 0 <= i && i < len(result0) ==> result0[i] == cellShare(eds, i, axisIdx)
+
+// A sample carries the share at exactly the requested cell, whichever axis its proof is built on, and
+// the proof is asked for exactly that position of that axis.
+//@ func (*Rsmt2D).SampleForProofAxis
+//@   property C05
+//@   noframe
+//@   requires eds != nil && eds.ExtendedDataSquare != nil && (proofType == 0 || proofType == 1)
+//@   requires 0 <= idx.Row && idx.Row < edsWidth(eds.ExtendedDataSquare) && 0 <= idx.Col && idx.Col < edsWidth(eds.ExtendedDataSquare)
+//@   callpre ErasuredNamespacedMerkleTree).ProveRange: $arg1 == shrIdx && $arg2 == shrIdx + 1 && shrIdx == (proofType == 0 ? idx.Col : idx.Row)
+//@   ensures err == nil ==> result0.Share == cellShare(eds.ExtendedDataSquare, idx.Row, idx.Col) && result0.ProofType == proofType && result0.Proof != nil
+
+//@ func (*Rsmt2D).AxisHalf
+//@   property C05
+//@   noframe
+//@   requires eds != nil && eds.ExtendedDataSquare != nil && axisIdx >= 0 && (axisType == 0 || axisType == 1)
+//@   ensures err == nil ==> !result0.IsParity && len(result0.Shares) == edsWidth(eds.ExtendedDataSquare) / 2
+//@   ensures err == nil && axisType == 0 ==> forall i int :: 0 <= i && i < len(result0.Shares) ==> result0.Shares[i] == cellShare(eds.ExtendedDataSquare, axisIdx, i)
+//@   ensures err == nil && axisType == 1 ==> forall i int :: 0 <= i && i < len(result0.Shares) ==> result0.Shares[i] == cellShare(eds.ExtendedDataSquare, i, axisIdx)
